@@ -1010,6 +1010,7 @@ class Joiner:
     def __init__(self, W):
         self.W = W
         self.memo = {}
+        self.reason = {}
         self.busy = set()
 
     def starts(self, o):
@@ -1085,8 +1086,69 @@ class Joiner:
                     if not joinable_here:
                         return [st | frozenset(i for i, e in enumerate(need) if e['kind'] == 'thread-member' and e['member'] == m)]
             return [st]
-        exits, _r = X.exit_states(g, [frozenset()], transfer, refine)
+        # a member flag that is only ever set (to true) after everything has been joined: seeing it true means "already joined"
+        full = frozenset(range(len(need)))
+        writes = {}         # field id -> [state at the write, is-plain-store-of-true]
+        srec = tu.records.get(fn.get('recid')) or {}
+        flagfields = {x['id'] for x in srec.get('fields', []) if x['ct'].startswith('std::atomic<bool>')}
+
+        def flag_write(x):
+            a = atomic_op(tu, x)
+            if a is not None and a[0] in ('store', 'rmw'):
+                m = member_of_this(tu, a[1])
+                if m in flagfields:
+                    val = const_value(tu, a[2]) if a[2] is not None else None
+                    if val is None and a[2] is not None:
+                        c = core(tu, a[2])
+                        if c is not None and c.get('kind') == 'CXXBoolLiteralExpr':
+                            val = 1 if c.get('value') else 0
+                    return m, (a[0] == 'store' and val == 1)
+            return None
+        inner_transfer = transfer
+
+        def transfer1(blk, idx, e, st):
+            if e[0] == 'S':
+                x = tu.node(e[1])
+                fw = flag_write(x) if x is not None else None
+                if fw:
+                    writes.setdefault(fw[0], []).append((st, fw[1]))
+            return inner_transfer(blk, idx, e, st)
+        exits, res = X.exit_states(g, [frozenset()], transfer1, refine)
+        # writes to the flag in the other methods of the class disqualify it (not analysed here)
+        for f2 in tu.functions.values():
+            if f2.get('recid') == fn.get('recid') and f2['id'] != fn['id'] and not f2['dep'] and tu.cfg(f2) is not None and not f2.get('ctor'):
+                for b2, i2, x2 in tu.cfg(f2).stmts():
+                    fw = flag_write(x2)
+                    if fw:
+                        writes.setdefault(fw[0], []).append((frozenset(), False))
+        joined_flags = {m for m, ws in writes.items() if ws and all(st == full and plain for st, plain in ws)}
+        if joined_flags and not (bool(exits) and all(st == full for st in exits)):
+            def refine2(blk, si, st):
+                out = refine(blk, si, st)
+                if blk.cond and len(blk.succ) == 2:
+                    r = flag_read(tu, srec, tu.node(blk.cond))
+                    if r is not None and r[0] in joined_flags and r[1] in (2, 4, 5) and ((si == 0) == (r[2] == 1)):
+                        return [full]
+                return out
+            exits, res = X.exit_states(g, [frozenset()], inner_transfer, refine2)
         ok = bool(exits) and all(len(st) == len(need) for st in exits)
+        if not ok:
+            # witness: a path through the function that reaches its end without the join
+            why = 'no join on any path'
+            for st, via in sorted(res.exits, key=repr):
+                if len(st) != len(need):
+                    steps = []
+                    for bid, s2 in res.path_to(via, st):
+                        blk = g.blocks[bid]
+                        if blk.cond:
+                            steps.append('%s (%s)' % (tu.show(tu.node(blk.cond)), tu.loc(blk.cond)))
+                    rets = [tu.loc(tu.node(e[1])) for e in g.blocks[via].el if e[0] == 'S' and tu.node(e[1]) is not None
+                            and tu.node(e[1]).get('kind') == 'ReturnStmt']
+                    why = 'there is a path through it that neither joins/waits nor has observed a completed join: %s%s' % (
+                        ('after the test(s) ' + ', '.join(steps[-3:])) if steps else 'straight through',
+                        (' it returns at ' + rets[0]) if rets else ' it reaches the end of the function')
+                    break
+            self.reason[key] = why
         self.memo[key] = ok
         return ok
 
@@ -1249,9 +1311,11 @@ def check_wait_before_release(ctx, W, o, J, verdicts=None):
         if not J.impl_join(o, callee):
             blamed = True
             ctx.violation(R4, '[%s] %s' % (tu.config, callee['q'].replace('rkcommon::tasking::', '')) + W.tag,
-                          '%s, which %s relies on to wait for its task, does not join what the constructor started (%s) on every '
-                          'path: the task can still run (and write into the owner) after the owner has been destroyed'
-                          % (short_name(callee['q']), short_name(d['q']), how), tu.fn_loc(callee),
+                          '%s, which %s relies on to wait for its task, can return while the task is still running: it does not join '
+                          'what the constructor started (%s) on every path -- %s. The task can then still run (and write into the owner) '
+                          'after the owner has been destroyed, and get() can read the result before it is written'
+                          % (short_name(callee['q']), short_name(d['q']), how, J.reason.get(('impl', id(tu), callee['id']), '')),
+                          tu.fn_loc(callee),
                           key='%s|%s|%s|no-backend-join' % (R4, tu.fn_file(callee), short_name(callee['q'])),
                           path=['%s: destructor calls %s' % (tu.loc(x), tu.show(x))])
     if not blamed:
@@ -2333,6 +2397,241 @@ def note_wake_fences(ctx, W):
                      % (short_name(f['q']), ', '.join(sorted(set(plain))[:3])))
 
 
+# ================================================================================================
+#  R-C02-8 queued tasks are drained before the scheduler's pipes are discarded (re-initialisation, destruction)
+# ================================================================================================
+R8 = 'R-C02-8'
+
+
+def holder_path(tu, obj):
+    """access path of the object a method is called on, looking through smart pointer operator-> / operator* / get()"""
+    c = core(tu, obj)
+    n = 0
+    while c is not None and n < 5:
+        n += 1
+        if c.get('kind') == 'CXXOperatorCallExpr' and tu.sd(c).get('q', '').split('::')[-1] in ('operator->', 'operator*'):
+            sd, o2, a2 = X.call_parts(tu, c)
+            c = core(tu, o2) if o2 is not None else None
+            continue
+        if c.get('kind') == 'CXXMemberCallExpr' and tu.sd(c).get('q', '').split('::')[-1] == 'get' and X.is_smart_ptr(tu.sd(c).get('rec', '') + '<'):
+            sd, o2, a2 = tu.call_parts(c)
+            c = core(tu, o2) if o2 is not None else None
+            continue
+        if c.get('kind') == 'UnaryOperator' and c.get('opcode') == '*':
+            c = core(tu, tu.kids(c)[0])
+            continue
+        break
+    return X.access_path(tu, c) if c is not None else None
+
+
+def classify_scheduler(ctx, W):
+    """from the enkiTS sources: the pipe member, the functions that drain all queued tasks, and the functions that can
+    discard the pipes without having drained them -> (sched record q, drains{q}, undrained{q: (fn, delete node)}) or None"""
+    tu = W.scheduler
+    # the pipe array: the member whose elements receive WriterTryWriteFront
+    pipe_fields = {}
+    for f in tu.functions.values():
+        if f['dep'] or tu.cfg(f) is None:
+            continue
+        for b, i, x in tu.cfg(f).stmts():
+            if x.get('kind') == 'CXXMemberCallExpr' and tu.sd(x).get('q', '').endswith('::WriterTryWriteFront'):
+                sd, obj, args = tu.call_parts(x)
+                for y in tu.walk(obj) if obj is not None else ():
+                    if y.get('kind') == 'MemberExpr' and 'fi' in tu.sd(y) and member_of_this(tu, y):
+                        pipe_fields[(f.get('recid'), member_of_this(tu, y))] = (y.get('name'), f.get('rec'))
+    if len(pipe_fields) != 1:
+        return None
+    (srecid, pfield), (pname, srec) = list(pipe_fields.items())[0]
+    runners = reaches(tu, lambda q: q == X.ENKI_EXECUTE)
+    checkers = reaches(tu, lambda q: q.endswith('::IsPipeEmpty'))
+
+    def mentions(e, ids):
+        for y in tu.walk(e):
+            if y.get('kind') in X.CALLS:
+                c = tu.callee_fn(y)
+                if (c is not None and c['id'] in ids) or (ids is checkers and tu.sd(y).get('q', '').endswith('::IsPipeEmpty')):
+                    return True
+        return False
+    # ---- drain loops: `while (haveTasks [|| ...])` where the loop runs tasks and haveTasks is recomputed in the loop from the
+    #      result of running a task / an emptiness check (continue while there is work; leave when nothing is left)
+    def positive_terms(c, out):
+        c = core(tu, c)
+        if c is None:
+            return
+        if c.get('kind') == 'BinaryOperator' and c.get('opcode') == '||':
+            for y in tu.kids(c):
+                positive_terms(y, out)
+        else:
+            out.append(c)
+    drains = set()
+    for f in tu.functions.values():
+        if f['dep'] or tu.cfg(f) is None or f.get('recid') != srecid:
+            continue
+        for L in tu.walk(X.fn_decl(tu, f)):
+            k = L.get('kind')
+            ks = tu.kids(L)
+            if k == 'WhileStmt' and len(ks) >= 2:
+                cond, body = ks[-2], ks[-1]
+            elif k == 'DoStmt' and len(ks) >= 2:
+                body, cond = ks[0], ks[1]
+            elif k == 'ForStmt' and len(ks) >= 2:
+                body = ks[-1]
+                conds = [y for y in ks[:-1] if y.get('kind') not in ('DeclStmt',) and 'type' in y and
+                         (y.get('type', {}).get('qualType') == 'bool')]
+                cond = conds[0] if conds else None
+            else:
+                continue
+            if cond is None or not mentions(body, runners):
+                continue
+            derived = set()
+            for y in tu.walk(body):
+                if y.get('kind') == 'BinaryOperator' and y.get('opcode') == '=':
+                    v = decl_ref(tu, tu.kids(y)[0])
+                    if v and (mentions(tu.kids(y)[1], runners) or mentions(tu.kids(y)[1], checkers)):
+                        derived.add(v)
+            terms = []
+            positive_terms(cond, terms)
+            for c in terms:
+                if c.get('kind') == 'DeclRefExpr' and c.get('referencedDecl', {}).get('id') in derived:
+                    drains.add(f['q'])
+                elif c.get('kind') in X.CALLS and mentions(c, runners):
+                    drains.add(f['q'])
+    # ---- functions that may discard the pipes without a preceding drain (fixpoint over calls on this)
+    undrained = {}
+    always_drain = set(drains)
+    for _ in range(4):
+        for f in tu.functions.values():
+            if f['dep'] or tu.cfg(f) is None or f.get('recid') != srecid:
+                continue
+            g = tu.cfg(f)
+            hit = []
+
+            def transfer(blk, idx, e, st, f=f, hit=hit):
+                if e[0] != 'S':
+                    return [st]
+                x = tu.node(e[1])
+                if x is None:
+                    return [st]
+                k = x.get('kind')
+                if k == 'CXXMemberCallExpr':
+                    sd, obj, args = tu.call_parts(x)
+                    if obj is not None and X.is_this_expr(tu, obj):
+                        q = sd.get('q', '')
+                        if q in always_drain:
+                            return [1]
+                        if q in undrained and not st and q != f['q']:
+                            hit.append(x)
+                if k == 'CXXDeleteExpr' and tu.kids(x) and member_of_this(tu, tu.kids(x)[0]) == pfield and not st:
+                    hit.append(x)
+                return [st]
+            exits, _r = X.exit_states(g, [0], transfer)
+            if hit:
+                undrained.setdefault(f['q'], (f, hit[0]))
+            elif exits and all(exits) and f['q'] not in always_drain:
+                always_drain.add(f['q'])
+    return dict(rec=srec, recid=srecid, pipe=pname, drains=drains, always_drain=always_drain, undrained=undrained)
+
+
+def check_drain_before_discard(ctx, W, tus, info, verdicts=None):
+    """callers of the scheduler: a method that may discard undrained pipes is called only on a scheduler that is fresh
+    (just created on this path) or was drained on this path"""
+    n = 0
+    for tu in tus:
+        for f in sorted(tu.functions.values(), key=lambda f: f['q']):
+            if f['dep'] or tu.cfg(f) is None or f.get('rec') == info['rec']:
+                continue
+            g = tu.cfg(f)
+            calls = []
+            for b, i, x in g.stmts():
+                if x.get('kind') == 'CXXMemberCallExpr' and tu.sd(x).get('rec') == info['rec'] and tu.sd(x).get('q') in info['undrained']:
+                    sd, obj, args = tu.call_parts(x)
+                    hp = holder_path(tu, obj) if obj is not None else None
+                    calls.append((x, hp))
+            if not calls:
+                continue
+            n += 1
+            name = short_name(f['q'])
+            inst = '[%s] %s' % (tu.config, f['q'].replace('rkcommon::tasking::', '')) + W.tag
+            problems, und = [], []
+            for x, hp in calls:
+                if hp is None:
+                    und.append('the scheduler object on which %s is called at %s is not a recognised variable' % (tu.sd(x).get('q'), tu.loc(x)))
+                    continue
+                root = tu.node(hp[0]) if hp[0] != 'this' else None
+                persistent = hp[0] == 'this' or (root is not None and root.get('kind') == 'VarDecl' and
+                                                 (tu.enclosing_fn(root) is None or root.get('storageClass') == 'static'))
+                found = []
+
+                def transfer(blk, idx, e, st, x=x, hp=hp):
+                    if e[0] != 'S':
+                        return [st]
+                    y = tu.node(e[1])
+                    if y is None:
+                        return [st]
+                    if y['id'] == x['id']:
+                        found.append(st)
+                        return ['fresh']        # after the (re-)initialisation the pipes are new and empty
+                    k = y.get('kind')
+                    if k in ('CXXOperatorCallExpr', 'CXXMemberCallExpr'):
+                        sd, obj, args = X.call_parts(tu, y)
+                        nm = sd.get('q', '').split('::')[-1]
+                        if obj is not None and X.access_path(tu, obj) == hp and nm in ('operator=', 'reset') and X.is_smart_ptr(sd.get('rec', '') + '<'):
+                            fresh = any(z.get('kind') == 'CXXNewExpr' and X.clean_t(tu.sd(z).get('aty', '')) == info['rec']
+                                        for a in args for z in tu.walk(a))
+                            return ['fresh' if fresh else 'used']
+                        if k == 'CXXMemberCallExpr' and sd.get('rec') == info['rec'] and obj is not None and holder_path(tu, obj) == hp:
+                            if sd.get('q') in info['always_drain']:
+                                return ['drained']
+                            if y.get('id') != x['id'] and not tu.sd(y).get('fty', '').rstrip().endswith('const'):
+                                return ['used']
+                    if k == 'BinaryOperator' and y.get('opcode') == '=' and X.access_path(tu, tu.kids(y)[0]) == hp:
+                        c1 = core(tu, tu.kids(y)[1])
+                        return ['fresh' if c1 is not None and c1.get('kind') == 'CXXNewExpr' else 'used']
+                    return [st]
+                X.exit_states(g, ['used' if persistent else 'unknown'], transfer)
+                if 'used' in found:
+                    ufn, unode = info['undrained'][tu.sd(x).get('q')]
+                    problems.append(('pipes-discarded-without-drain', '%s is called at %s on a scheduler that may already hold queued tasks (on '
+                                     'this path it is neither freshly created nor drained by WaitforAll/WaitforAllAndShutdown): it reaches '
+                                     '`%s` at %s without running the tasks still in the pipes, so functions handed to schedule()/async()/'
+                                     'AsyncTask before the re-initialisation are never executed (and their waiters never return)'
+                                     % (tu.sd(x).get('q'), tu.loc(x), W.scheduler.show(unode), W.scheduler.loc(unode)), tu.loc(x)))
+                elif 'unknown' in found:
+                    und.append('%s is called at %s on a scheduler whose history is not visible in this function' % (tu.sd(x).get('q'), tu.loc(x)))
+            if verdicts is not None:
+                verdicts.append((name, True if problems else (None if und else False)))
+                continue
+            for u in sorted(set(und)):
+                ctx.undecided(R8, inst, u, tu.fn_loc(f))
+            for kind, text, loc in sorted(set(problems)):
+                ctx.violation(R8, inst, text, loc, key='%s|%s|%s|%s' % (R8, tu.fn_file(f), name, kind))
+            if not und and not problems:
+                ctx.ok(R8, inst, 'every call of %s is made on a scheduler created or drained on that path'
+                       % ', '.join(sorted({tu.sd(x).get('q') for x, hp in calls})), tu.fn_loc(f))
+    return n
+
+
+def check_scheduler_teardown(ctx, W, info):
+    """inside enkiTS: the destructor never discards undrained pipes; report the classification"""
+    tu = W.scheduler
+    n = 0
+    for f in tu.functions.values():
+        if f['dep'] or tu.cfg(f) is None or f.get('recid') != info['recid'] or not f.get('dtor'):
+            continue
+        n += 1
+        inst = '[INTERNAL] %s' % f['q'] + W.tag
+        if f['q'] in info['undrained']:
+            ufn, unode = info['undrained'][f['q']]
+            ctx.violation(R8, inst, 'the scheduler destructor reaches `%s` (%s) on a path without a preceding drain of the queued tasks: '
+                          'destroying / replacing the scheduler drops tasks that were scheduled but not yet run' % (tu.show(unode), tu.loc(unode)),
+                          tu.loc(unode), key='%s|%s|%s|pipes-discarded-without-drain' % (R8, tu.fn_file(f), r7_name(f)))
+        else:
+            ctx.ok(R8, inst, 'drains (%s) before the pipes `%s` are deleted; undrained discards exist only in: %s'
+                   % (', '.join(sorted(short_name(q) for q in info['drains'])), info['pipe'],
+                      ', '.join(sorted(short_name(q) for q in info['undrained'])) or 'none'), tu.fn_loc(f))
+    return n
+
+
 def check_wait_drains(ctx, W):
     """TaskScheduler::WaitforTask(p) returns, for p != null, only after p's running count was read as zero"""
     tu = W.scheduler
@@ -2385,6 +2684,7 @@ EXPECT_PUBLISH = {'rkverif::c02w::publishThenSchedule': True, 'rkverif::c02w::sc
                   'rkverif::c02w::sweepThenSchedule': True}
 EXPECT_RESULT_USE = {'rkverif::c02w::MovesOut': 'result-moved-out', 'rkverif::c02w::Copies': None}
 EXPECT_RUN = {'rkverif::c02w::detachedRun': False, 'rkverif::c02w::runAndWait': True, 'rkverif::c02w::runMaybeWait': False}
+EXPECT_REINIT = {'rkverif::c02w::reinitKeepsScheduler': True, 'rkverif::c02w::reinitFresh': False, 'rkverif::c02w::reinitDrained': False}
 EXPECT_HANDSHAKE = {'rkverif::c02w::Handshake::sleepRegisteredFirst': False, 'rkverif::c02w::Handshake::sleepCheckedFirst': True,
                     'rkverif::c02w::Handshake::sleepUnregistered': True, 'rkverif::c02w::Handshake::publishThenWake': False,
                     'rkverif::c02w::Handshake::publishNoWake': True, 'rkverif::c02w::Handshake::wakeThenPublish': None,
@@ -2447,6 +2747,12 @@ def check_witness(ctx, W, active_unused=None):
             got[nm] = bool(runs) and all(group_is_waited(tb, f, e) for e in runs)
     if got != EXPECT_RUN:
         bad.append('task_group run-needs-wait detector: expected %s, got %s' % (EXPECT_RUN, got))
+    if getattr(W, 'sched_info', None):
+        v = []
+        check_drain_before_discard(ctx, W, [tu], W.sched_info, verdicts=v)
+        got = {k: c for k, c in v if k.startswith('rkverif::c02w::')}
+        if got != EXPECT_REINIT:
+            bad.append('drain-before-discard detector: expected %s, got %s' % (EXPECT_REINIT, got))
     v = []
     check_wake_protocol(ctx, W, tu, verdicts=v)
     got = {k: c for k, c in v if k.startswith('rkverif::c02w::Handshake::')}
@@ -2496,8 +2802,15 @@ def run_world(ctx, W):
         check_task_deletes(ctx, W, tu, handled if tu is tui else set())
         check_publication_order(ctx, W, tu)
     n7s, n7p = check_wake_protocol(ctx, W, W.scheduler)
+    info = classify_scheduler(ctx, W)
+    n8 = 0
+    if info is None or not info['drains']:
+        ctx.broken('%s: cannot identify the pipe member / a function that drains all queued tasks in TaskScheduler.cpp%s' % (R8, W.tag))
+    else:
+        W.sched_info = info
+        n8 = check_scheduler_teardown(ctx, W, info) + check_drain_before_discard(ctx, W, [W.tasksys], info)
     check_witness(ctx, W)
-    return dict(n7s=n7s, n7p=n7p, n1=n1 + n_sub, names=names, n2=n2, n3=n3, n4=n4, n5=n5, n6=n6, nsites=nsites)
+    return dict(n8=n8, n7s=n7s, n7p=n7p, n1=n1 + n_sub, names=names, n2=n2, n3=n3, n4=n4, n5=n5, n6=n6, nsites=nsites)
 
 
 def floors(ctx, r, tag=''):
@@ -2514,6 +2827,7 @@ def floors(ctx, r, tag=''):
     ctx.floor(R5, r['n5'], 8, 'async<IntJob>, async<StringJob&> x 4 backends' + tag)
     ctx.floor(R6, r['n6'], 5, 'ExecuteRange overrides: schedule_internal x 3, AsyncTaskImpl, parallel_for_internal' + tag)
     ctx.floor(R6, r['nsites'], 2, 'ExecuteRange call sites in TaskScheduler.cpp: 3' + tag)
+    ctx.floor(R8, r['n8'], 2, 'scheduler destructor + initTaskSystemInternal' + tag)
     ctx.floor(R7, r['n7s'], 1, 'functions of the scheduler that block on the new-task semaphore: WaitForTasks' + tag)
     ctx.floor(R7, r['n7p'], 1, 'functions of the scheduler that publish a task to a pipe: SplitAndAddTask' + tag)
 
@@ -2534,6 +2848,8 @@ def run(ctx):
     ctx.assume('tbb::task_arena::enqueue, tbb::task_group::run, std::thread and the enkiTS pipe invoke a submitted callable exactly once '
                '(backend contract; the enkiTS partition/pipe bookkeeping is the subject of C01/C12)')
     ctx.assume('std::packaged_task / std::future deliver the value of the invoked callable (standard library contract)')
+    ctx.describe(R8, 'queued tasks are drained (run until all pipes are empty) before the scheduler\'s pipes are discarded: the destructor '
+                     'drains; a method that discards without draining is only called on a fresh or drained scheduler')
     ctx.describe(R7, 'enkiTS sleep/wake handshake: a worker registers in the waiter count, then re-checks the pipes, then sleeps; a '
                      'publisher writes the task to the pipe, then wakes (reading the waiter count after the write)')
     ctx.assume('backend liveness beyond the sleep/wake handshake order (fairness of TBB / the OS scheduler, hardware store-load ordering)')
